@@ -193,7 +193,7 @@ pub fn run(ctx: &Ctx) -> Report {
         }
         // a full chunk (index >= 1) altered in its payload, the stream cut inside that chunk's tag so that only a few
         // tag bytes are left: the chunk must fail whatever the bytes left say
-        if ctx.thorough || i < 4 {
+        if (ctx.thorough && i < 200) || i < 4 {
             for k in 1..nchunks {
                 let lo = h + k * step;
                 if lo + step > b.bytes.len() { continue; }
